@@ -588,6 +588,25 @@ func GenScenario(t *rapid.T, p *Profile) *Scenario {
 		}
 		s.Blocks = append(s.Blocks, blk)
 	}
+	// a backlog motif: after a bulk of raised orders, every signer approves the whole backlog in the next block
+	for b := 0; b+1 < len(s.Blocks); b++ {
+		bulkRaise := false
+		for _, tx := range s.Blocks[b].Txs {
+			if tx.Repeat > 1 && len(tx.Ops) > 0 && tx.Ops[0].Kind == EntRaise {
+				bulkRaise = true
+			}
+		}
+		if bulkRaise && uni(t, 3, "backlogApproval") != 0 {
+			var extra []Tx
+			for k := 0; k < 4; k++ {
+				for part := 0; part < 3; part++ { // a batch carries at most 40 decisions
+					extra = append(extra, Tx{Ops: []Op{{Kind: EntDecide, Actor: -1, Named: -1, Peer: k, Rule: 2, Flag: true}}})
+				}
+			}
+			s.Blocks[b+1].Txs = append(extra, s.Blocks[b+1].Txs...)
+			s.Blocks[b+1].DtMs = 1000
+		}
+	}
 	if p.SteerExport && len(s.Blocks) >= 3 {
 		// steer towards interesting export points (export is taken after two thirds of the blocks)
 		k := len(s.Blocks)*2/3 - 1
